@@ -137,7 +137,12 @@ func (w *world) exec(t *thread, o op) uint64 {
 		names := dpt.ListSupportedTypes()
 		var sum uint64
 		for _, n := range names {
-			sum += hString(fnvOff, n)
+			// order-independent; injective on names of up to eight characters
+			x := uint64(len(n))
+			for i := 0; i < len(n) && i < 8; i++ {
+				x = x<<8 | uint64(n[i])
+			}
+			sum += x * 0x9E3779B97F4A7C15
 		}
 		return hWord(hWord(h, uint64(len(names))), sum)
 	}
